@@ -11,7 +11,7 @@ Three layers (see coq/theories/C13/Model.v for what is modelled):
 Rule applied to the implementation: export either raises or produces output that the importer
 accepts and reads as an equivalent object.
 """
-STATIC = ["C13/Props", "C13/PropsHistory"]
+STATIC = ["C13/Props", "C13/PropsHistory", "C13/PropsTrainable"]
 
 import ast
 import hashlib
@@ -577,13 +577,13 @@ def gen_tables(run):
             "Definition name_ok' := name_ok reserved."]
     txt += ["Definition construct' := construct bases.",
             "Definition from_dict' := from_dict rows bases.",
-            "Definition raw' := raw required_kw.",
+            "Definition raw' := raw_t rows required_kw.   (* Gate.raw of the repaired tree: trainable exported iff != class default *)",
             "Definition add' := add rotation.",
             "Definition build' := build rotation.",
             "Definition write' := write rows.",
             "Definition read' := read rows bases specials rotation.",
             "Definition cfrom_dict' := cfrom_dict rows bases rotation.",
-            "Definition craw' := craw required_kw.", ""]
+            "Definition craw' := craw_t rows required_kw.", ""]
     run.write("Gen.v", "\n".join(txt))
     ok, out = vcore.coqc(os.path.join(run.dir, "Gen.v"))
     run.checker_cmds.append("coqc _build/C13/Gen.v")
@@ -1898,7 +1898,7 @@ def table_theorems(run, tab, sweep_findings):
     for n, r in rows.items():
         if r["label"] is not None:
             items.append((f"label:{n}", f"label_row_ok rows specials row_{n}"))
-    tri, _ = run.coq_bools("tables_triage.v", HEADER + "From QV Require Import C13.Proofs C13.TextProofs C13.Props.\n", items)
+    tri, _ = run.coq_bools("tables_triage.v", HEADER + "From QV Require Import C13.Proofs C13.TextProofs C13.Props C13.Trainable.\n", items)
     if tri is None:
         run.oblige("tables_triage", False, "generated")
         run.find("tables:triage", "the table checks do not compile against the generated tables", {"log": run.notes.get("coq_errors")}, concrete=False)
@@ -1985,6 +1985,16 @@ def table_theorems(run, tab, sweep_findings):
             thms.append((f"raw_roundtrip_{n}",
                          f"forall {binders} (g : gate), construct' row_{n} {clist(pos)} [] = OK g -> raw_rt_ok (from_dict' (raw' g)) g",
                          "raw_rt_tac."))
+            tpos = [i for i, (fn, _, _) in enumerate(r["formals"]) if fn == "trainable"]
+            if tpos and n != "Align":
+                # the same with trainable=False passed to the constructor: the import is again a non-trainable gate
+                vs2 = [x for i, x in enumerate(vs) if i != tpos[0]]
+                pos2 = [("VA (ABool false)" if i == tpos[0] else x) for i, x in enumerate(pos)]
+                b2 = " ".join(f"({v} : {t})" for v, t in vs2)
+                thms.append((f"raw_roundtrip_{n}_nontrainable",
+                             f"forall {b2} (g : gate), construct' row_{n} {clist(pos2)} [] = OK g -> "
+                             f"raw_rt_nt_ok (from_dict' (raw' g)) g",
+                             "raw_rt_nt_tac."))
         elif ok:
             # variadic constructors / list-valued qubit arguments: proved per arity, labelled as bounded
             thms.append((f"raw_roundtrip_{n}_instance", f"match from_dict' (raw' {insts[n]}) with OK g' => gate_view_eqb g' {insts[n]} | Err _ => false end = true",
@@ -1998,7 +2008,7 @@ def table_theorems(run, tab, sweep_findings):
             run.refuted.append(f"raw_roundtrip_{n}")
             if not any(k.startswith("raw:") and k.split(":")[2].split(".")[0] == n for k in sweep_findings):
                 run.find(f"raw_table:{n}", f"model says Gate.raw of {n} does not round trip but the real run did not fail", {"class": n}, concrete=False)
-    T_ok, out = run.coq_theorems("table_theorems.v", HEADER + "From QV Require Import C13.Proofs C13.TextProofs C13.Props.\n", thms, timeout=900)
+    T_ok, out = run.coq_theorems("table_theorems.v", HEADER + "From QV Require Import C13.Proofs C13.TextProofs C13.Props C13.Trainable.\n", thms, timeout=900)
     if T_ok:
         for t in thms:
             run.oblige(t[0], True, "generated-table-theorem")
@@ -2015,7 +2025,7 @@ def table_theorems(run, tab, sweep_findings):
                 status[t[0]] = False
                 run.oblige(t[0], False, "generated-table-theorem")
                 continue
-            ok1, _ = run.coq_theorems(f"thm_{t[0]}.v", HEADER + "From QV Require Import C13.Proofs C13.TextProofs C13.Props.\n", [by_name[d] for d in need] + [t], timeout=300)
+            ok1, _ = run.coq_theorems(f"thm_{t[0]}.v", HEADER + "From QV Require Import C13.Proofs C13.TextProofs C13.Props C13.Trainable.\n", [by_name[d] for d in need] + [t], timeout=300)
             status[t[0]] = ok1
             run.oblige(t[0], ok1, "generated-table-theorem")
             if not ok1:
@@ -2108,18 +2118,19 @@ def run_all(run):
                 run.axioms.add(a[:120])
         T["static_print_assumptions"] = {t: a[:80] for t, a in ass.items()}
     # history models (C13/History.v): results of a circuit object executed several times, circuits over a heap of gate objects
-    okh, assh = vcore.static_assumptions("C13/PropsHistory")
-    for t in vcore.props_theorems("C13/PropsHistory.v"):
-        run.oblige(t, okh, "static-theorem")
-        if "_refuted" in t:
-            run.refuted.append(t.split("_refuted")[0] + " (full statement; witness: " + t + ")")
-    if not okh:
-        run.find("static:C13/PropsHistory", "Print Assumptions over C13/PropsHistory.vo failed (static development does not build)", {}, concrete=False)
-    else:
-        for t, a in assh.items():
-            if not a.startswith("Closed"):
-                run.axioms.add(a[:120])
-        T["static_print_assumptions_history"] = {t: a[:80] for t, a in assh.items()}
+    for th in ("C13/PropsHistory", "C13/PropsTrainable"):
+        okh, assh = vcore.static_assumptions(th)
+        for t in vcore.props_theorems(th + ".v"):
+            run.oblige(t, okh, "static-theorem")
+            if "_refuted" in t and not t.startswith("historical_"):      # historical_*: statements about the pre-repair exporter
+                run.refuted.append(t.split("_refuted")[0] + " (full statement; witness: " + t + ")")
+        if not okh:
+            run.find("static:" + th, f"Print Assumptions over {th}.vo failed (static development does not build)", {}, concrete=False)
+        else:
+            for t, a in assh.items():
+                if not a.startswith("Closed"):
+                    run.axioms.add(a[:120])
+            T["static_print_assumptions_" + th.split("Props")[1].lower()] = {t: a[:80] for t, a in assh.items()}
     if run.tier == "thorough":
         rc, out = vcore.sh("timeout 1200 coqchk -silent -o -Q theories QV QV.C13.Props", cwd=vcore.COQ, timeout=1300)
         run.checker_cmds.append("coqchk -silent -o -Q theories QV QV.C13.Props")
